@@ -36,6 +36,7 @@ struct FileInfo {
 }
 
 struct Run {
+    relative_prefix: bool,
     dir: PathBuf,
     now_ns: u128,
     max_write_bytes: u64,
@@ -73,7 +74,15 @@ impl Run {
     fn start_writer(&mut self) -> Result<(), Outcome> {
         set_clock(self.now_ns);
         let id = hooks::next_writer_id();
-        let mut b = LogFileWriter::new_builder(self.dir.join(PREFIX), self.max_keep_bytes).with_max_write_bytes(self.max_write_bytes).with_max_write_age(self.max_write_age);
+        // (in a share of the runs the prefix is given relative to the current directory, with a
+        // leading "./" - the files are the same ones)
+        let prefix_path = if self.relative_prefix {
+            let _ = std::env::set_current_dir(&self.dir);
+            PathBuf::from(format!("./{PREFIX}"))
+        } else {
+            self.dir.join(PREFIX)
+        };
+        let mut b = LogFileWriter::new_builder(prefix_path, self.max_keep_bytes).with_max_write_bytes(self.max_write_bytes).with_max_write_age(self.max_write_age);
         if let Some(a) = self.keep_age {
             b = b.with_max_keep_age(a);
         }
@@ -453,6 +462,7 @@ fn history(cfg: &RunCfg) -> Outcome {
     let keep_age = if gen::ratio(1, 2) { Some(Duration::from_secs(gen::pick(&[60u64, 600, 3600, 86_400]))) } else { None };
     let max_write_age = Duration::from_secs(gen::pick(&[1u64, 30, 3600, 86_400]));
     let mut run = Run {
+        relative_prefix: gen::ratio(1, 5),
         dir: dir.clone(),
         now_ns: u128::from(T0) * 1_000_000_000,
         max_write_bytes,
